@@ -329,22 +329,22 @@ def _mk(op):
     return name, harness
 
 
-CMAX = tiered(3, NLEAF)    # third clause: quick uses the first 3 leaves + (for binary ops) none
+CMAX = tiered(3, 8)    # third clause: quick uses the first 3 leaves + (for binary ops) none; thorough the first 8
 for _op in range(NOP):
     _n, _f = _mk(_op)
     if _op >= len(COMPOUND):
         _f.__doc__ = _f.__doc__.replace("0 <= c < CMAX", "c == 0")
     globals()[_n] = _f
 
-DL = [0, 4, 13, 14, 16, 21, 5, 9, 10, 1]    # leaves used at depth 2 (quick: the first 4; thorough: all 10)
-NDL = tiered(4, 10)
-OP2 = [0, 1, 5, 8, 2, 3, 4, 6, 7, 9, 10, 11]   # inner operators (quick: And, Or, AndNot, Not; thorough: all 12)
-NOP2 = tiered(4, 12)
-NPOS = tiered(2, 3)
+DL = [0, 4, 13, 14, 16, 21, 5, 9, 10, 1]    # leaves used at depth 2 (quick: the first 4; thorough: the first 6)
+NDL = tiered(4, 6)
+OP2 = [0, 1, 5, 8, 2, 3, 4, 6, 7, 9, 10, 11]   # inner operators (quick: And, Or, AndNot, Not; thorough: the first 6)
+NOP2 = tiered(4, 6)
+NPOS = 2
 
 
-@h(bounds="op(.., op2(a, b), ..) for op over all 12 operators, op2 over 4 (thorough 12), a, b over 4 (thorough 10) leaves (term, term range, Every, "
-          "Every(f), NullQuery, Not, numeric ranges), inner position 0..1 (thorough 0..2), 1 (thorough 8) sibling patterns",
+@h(bounds="op(.., op2(a, b), ..) for op over all 12 operators, op2 over 4 (thorough 6), a, b over 4 (thorough 6) leaves (term, term range, Every, "
+          "Every(f), NullQuery, Not, numeric ranges), inner position 0..1, 1 (thorough 2) sibling patterns",
    funcs=FUNCS, examples=[dict(op=0, op2=1, a=0, b=1, c=0, pos=1)], outside=OUT, timeout=dict(quick=900, thorough=6000))
 def c15_nested(op: int, op2: int, a: int, b: int, c: int, pos: int) -> Optional[str]:
     """
@@ -357,7 +357,7 @@ def c15_nested(op: int, op2: int, a: int, b: int, c: int, pos: int) -> Optional[
     return r
 
 
-CN = tiered(1, 8)
+CN = tiered(1, 2)
 
 
 def _witness(name, kfid, mk):
